@@ -1,5 +1,6 @@
 import Secp.Proofs.Adaptor
 import Secp.Props.C03
+import Secp.Proofs.Slices
 /-
   Props/C15 — the crypto/elliptic adaptor agrees with the group law (and with crypto/ecdsa).
   Model: `Secp.Model.adaptorAdd/adaptorDouble/adaptorScalarMult/adaptorBaseMult/adaptorIsOnCurve`
@@ -54,5 +55,14 @@ theorem scalarBaseMult_spec_unconditional (k : Bytes) :
 theorem double_spec_unconditional (p : Nat × Nat) (hP : Operand p) :
     adaptorDouble p = xyOfPt (Pt.dbl (ptOfXY p)) :=
   double_spec Secp.Props.C03.pointSpec Secp.Props.C04.pointOps p hP
+
+
+/-- Limb level of this property's own functions: the REGENERATED sliced field programs (tools/gotr pass T2s,
+    `Secp.Gen.Slices`) of the big.Int ↔ Jacobian conversions and every adaptor method pass the abstract interpreter on every path — no magnitude overflow, every
+    comparison / parity test / serialisation reads a normalised value, every callee's precondition holds,
+    every returned key or point is normalised.  Together with C05 (kernels) and C16 (`absPath_sound`,
+    `contracts_justified`) this is what makes the value-level model above faithful to the limb code. -/
+theorem adaptor_field_arithmetic_exact :
+    Secp.Proofs.Slices.entriesOK ["github.com/ModChain/secp256k1.KoblitzCurve.Add", "github.com/ModChain/secp256k1.KoblitzCurve.Double", "github.com/ModChain/secp256k1.KoblitzCurve.ScalarMult", "github.com/ModChain/secp256k1.KoblitzCurve.ScalarBaseMult", "github.com/ModChain/secp256k1.KoblitzCurve.IsOnCurve", "github.com/ModChain/secp256k1.bigAffineToJacobian", "github.com/ModChain/secp256k1.jacobianToBigAffine", "github.com/ModChain/secp256k1.PublicKey.X", "github.com/ModChain/secp256k1.PublicKey.Y", "github.com/ModChain/secp256k1.PublicKey.ToECDSA", "github.com/ModChain/secp256k1.PrivateKey.ToECDSA"] = true := by decide +kernel
 
 end Secp.Props.C15
